@@ -35,10 +35,10 @@ import (
 //	R3 destructive probe: fresh subscribers take what is free until refusal - exactly
 //	   capacity-minus-live are admitted and nothing they get overlaps what a live holder has.
 type resInst struct {
-	release func()                       // one termination path's release of the victim's resource
-	alloc   func() string                // the newcomer takes a resource; returns a description
-	dump    func() string                // canonical state of the component
-	check   func(newcomer bool) []viol   // R2 + R3 (destructive)
+	release func()                     // one termination path's release of the victim's resource
+	alloc   func() string              // the newcomer takes a resource; returns a description
+	dump    func() string              // canonical state of the component
+	check   func(newcomer bool) []viol // R2 + R3 (destructive)
 	close   func()
 }
 
@@ -48,18 +48,22 @@ type resDef struct {
 	mk    func(e *kenv) *resInst
 }
 
-func resScenarios() []schedScen {
-	var out []schedScen
-	for _, d := range []resDef{
+func resScenarios(thorough bool) []schedScen {
+	defs := []resDef{
 		{"nat DeallocateNAT||DeallocateNAT", false, mkResNAT},
-		{"nat DeallocateNAT||DeallocateNAT +alloc", true, mkResNAT},
 		{"qos RemoveSubscriberQoS||RemoveSubscriberQoS", false, mkResQoS},
-		{"qos RemoveSubscriberQoS||RemoveSubscriberQoS +alloc", true, mkResQoS},
 		{"pppoe-pool Release||Release", false, mkResPPPoEPool},
 		{"pppoe-pool Release||Release +alloc", true, mkResPPPoEPool},
 		{"dhcp-pool Release||Release", false, mkResDHCPPool},
 		{"dhcp-pool Release||Release +alloc", true, mkResDHCPPool},
-	} {
+	}
+	if thorough {
+		defs = append(defs,
+			resDef{"nat DeallocateNAT||DeallocateNAT +alloc", true, mkResNAT},
+			resDef{"qos RemoveSubscriberQoS||RemoveSubscriberQoS +alloc", true, mkResQoS})
+	}
+	var out []schedScen
+	for _, d := range defs {
 		out = append(out, schedScen{d.name, scRes(d)})
 	}
 	return out
